@@ -257,15 +257,19 @@ def convertCoin {σ} (E : Evm σ) (st : State σ) (sender recv : Addr) (d : Deno
 /-! ### the hook and the middleware -/
 
 /-- `Keeper.OnRecvPacket(ctx, packet, ack)`. The conversion runs on a cache context that is written only when
-    `ConvertCoin` returns no error. `fixed = false`: the code as found returns `nil` on every path. -/
-def hook {σ} (fixed : Bool) (E : Evm σ) (v : View) (st : State σ) (ack : Ack) : Outcome (Res σ) :=
+    `ConvertCoin` returns no error. `fixed = false`: the code as found returns `nil` on every path (F7).
+    `guard = true`: the code with fixes/C16-receiver-length.diff — a receiver that is not a 20-byte address has no EVM
+    account of its own (`common.BytesToAddress` would keep the LAST 20 bytes / left-pad), so no conversion is attempted;
+    `guard = false`: the code before that repair. -/
+def hookG {σ} (guard fixed : Bool) (E : Evm σ) (v : View) (st : State σ) (ack : Ack) : Outcome (Res σ) :=
   let ret : Option Ack := if fixed then some ack else none
   if !v.decodeOk then .ok ⟨ret, st, .failed⟩
   else match v.amount with
     | none => .ok ⟨ret, st, .failed⟩
     | some amt =>
       let receiver := v.receiver.getD []           -- `receiver, _ := sdk.AccAddressFromBech32(..)`
-      match st.denomMap v.denom with               -- IsDenomRegistered
+      if guard && receiver.length != 20 then .ok ⟨ret, st, .failed⟩   -- len(receiver.Bytes()) != common.AddressLength
+      else match st.denomMap v.denom with          -- IsDenomRegistered
       | none => .ok ⟨ret, st, .failed⟩
       | some _ =>
         if amt < 0 then .panic "NewCoin-negative"  -- sdk.NewCoin panics on a negative amount
@@ -274,6 +278,14 @@ def hook {σ} (fixed : Bool) (E : Evm σ) (v : View) (st : State σ) (ack : Ack)
           | .err _ => .ok ⟨ret, st, .failed⟩       -- cache context dropped
           | .panic s => .panic s
 
+/-- the hook as repaired (receiver-length guard) -/
+def hook {σ} (fixed : Bool) (E : Evm σ) (v : View) (st : State σ) (ack : Ack) : Outcome (Res σ) :=
+  hookG true fixed E v st ack
+
+/-- the hook before the receiver-length repair -/
+def hookUnguarded {σ} (fixed : Bool) (E : Evm σ) (v : View) (st : State σ) (ack : Ack) : Outcome (Res σ) :=
+  hookG false fixed E v st ack
+
 /-- `IBCMiddleware.OnRecvPacket`: the wrapped application first; the hook only after a successful ack. -/
 def onRecv {σ P} (fixed : Bool) (E : Evm σ) (view : P → View) (inner : Inner σ P) (st : State σ) (pkt : P) :
     Outcome (Res σ) :=
@@ -281,6 +293,14 @@ def onRecv {σ P} (fixed : Bool) (E : Evm σ) (view : P → View) (inner : Inner
   let sI := inner.effect st pkt
   if !ack.success then .ok ⟨some ack, sI, .none⟩
   else hook fixed E (view pkt) sI ack
+
+/-- the middleware over the hook before the receiver-length repair (for the witness of the defect) -/
+def onRecvUnguarded {σ P} (fixed : Bool) (E : Evm σ) (view : P → View) (inner : Inner σ P) (st : State σ) (pkt : P) :
+    Outcome (Res σ) :=
+  let ack := inner.ack st pkt
+  let sI := inner.effect st pkt
+  if !ack.success then .ok ⟨some ack, sI, .none⟩
+  else hookUnguarded fixed E (view pkt) sI ack
 
 /-- ibc-go v3.0.0 core `Keeper.RecvPacket` after the callback (TRUSTED BASE):
     the callback's state changes are written iff `ack == nil || ack.Success()`;
